@@ -149,8 +149,12 @@ func (c *Chain) planEpoch(e common.Epoch, sh *common.ShufflingEpoch, epc *common
 			p.Who[v] = Part{Attest: true, Delay: 1, Variant: VarWrongTarget}
 		}
 	case "leakmix":
+		wt := 35
+		if c.LowBalances {
+			wt = 60 // most validators miss the target and pay the leak penalty
+		}
 		for _, v := range members {
-			switch x := r.Intn(100); {
+			switch x := r.Intn(100) - (wt - 35); {
 			case x < 35:
 				p.Who[v] = Part{Attest: true, Delay: 1, Variant: VarWrongTarget}
 			case x < 50:
